@@ -225,6 +225,50 @@ fn describe_func(m: &Module, f: &Function) -> String {
     }
 }
 
+/// does the mutable accessor hand out an item for this id?  (false = it panics or reports none)
+fn get_mut_resolves(m: &mut Module, id: AnyId) -> bool {
+    catch_unwind(AssertUnwindSafe(|| match id {
+        AnyId::F(x) => {
+            m.funcs.get_mut(x);
+            true
+        }
+        AnyId::G(x) => {
+            m.globals.get_mut(x);
+            true
+        }
+        AnyId::T(x) => {
+            m.tables.get_mut(x);
+            true
+        }
+        AnyId::M(x) => {
+            m.memories.get_mut(x);
+            true
+        }
+        AnyId::D(x) => {
+            m.data.get_mut(x);
+            true
+        }
+        AnyId::E(x) => {
+            m.elements.get_mut(x);
+            true
+        }
+        AnyId::I(x) => {
+            m.imports.get_mut(x);
+            true
+        }
+        AnyId::X(x) => {
+            m.exports.get_mut(x);
+            true
+        }
+        AnyId::Ty(x) => {
+            m.types.get_mut(x);
+            true
+        }
+        _ => false,
+    }))
+    .unwrap_or(false)
+}
+
 /// what the collection says the id denotes; None = absent (explicit none or panic)
 fn get(m: &Module, id: AnyId) -> Option<String> {
     let r = catch_unwind(AssertUnwindSafe(|| -> Option<String> {
@@ -456,6 +500,17 @@ impl Subject for IdSubject {
                     _ => format!("id-denotes-other-item:{}", coll),
                 };
                 fs.push(Finding { sig, detail: format!("{:?}: expected {:?}, collection says {:?}", id, want, got) });
+            }
+        }
+        // the mutable accessor agrees: a deleted id does not resolve, a live one does
+        for (id, want) in o.issued.clone() {
+            if matches!(id, AnyId::C(_) | AnyId::L(_)) {
+                continue;
+            }
+            let res = get_mut_resolves(&mut o.m, id);
+            if res != want.is_some() {
+                let sig = if res { format!("deleted-id-resolves-mutably:{}", coll) } else { format!("live-id-absent-mutably:{}", coll) };
+                fs.push(Finding { sig, detail: format!("{:?}: get_mut resolves = {}, the item is {}", id, res, if want.is_some() { "live" } else { "deleted" }) });
             }
         }
         // iteration = live items in creation order
